@@ -2,10 +2,10 @@ package h
 
 import (
 	"bufio"
-	"hash/fnv"
 	"encoding/json"
 	"flag"
 	"fmt"
+	"hash/fnv"
 	"os"
 	"os/exec"
 	"path/filepath"
@@ -575,21 +575,21 @@ func writeEvidence(p *Plan, prop, tier string, seed uint64, total *Stats, nviol 
 		hours = 1e-9
 	}
 	cov := map[string]any{
-		"evaluations":         total.Evals,
-		"distinct_nontrivial": len(total.Finger),
-		"rule":                p.Rule,
-		"samples":             samples,
-		"exhaustive":          total.Exhaustive,
-		"generated_runs":      total.Runs,
-		"runs_per_hour":       int64(float64(total.Runs) / hours),
+		"evaluations":          total.Evals,
+		"distinct_nontrivial":  len(total.Finger),
+		"rule":                 p.Rule,
+		"samples":              samples,
+		"exhaustive":           total.Exhaustive,
+		"generated_runs":       total.Runs,
+		"runs_per_hour":        int64(float64(total.Runs) / hours),
 		"evaluations_per_hour": int64(float64(total.Evals) / hours),
-		"sim_steps":           total.Steps,
-		"simulated_time":      "none: no code path under this property reads a clock; logical time is the step count (sim_steps)",
-		"faults_fired":        total.Faults,
-		"probes":              total.Probes,
-		"probes_at_zero":      zero,
-		"inconclusive":        total.Inconclusive,
-		"known_findings_hit":  known,
+		"sim_steps":            total.Steps,
+		"simulated_time":       "none: no code path under this property reads a clock; logical time is the step count (sim_steps)",
+		"faults_fired":         total.Faults,
+		"probes":               total.Probes,
+		"probes_at_zero":       zero,
+		"inconclusive":         total.Inconclusive,
+		"known_findings_hit":   known,
 		"components": map[string]any{
 			"real":     p.Real,
 			"stub":     p.Stub,
@@ -653,7 +653,6 @@ func Replay(prop, path string) int {
 // SelfTest is filled in by selftest.go.
 var SelfTest = func() int { fmt.Println("selftest: not built"); return 2 }
 
-
 func hashInts(xs []int) string {
 	h := fnv.New64a()
 	for _, x := range xs {
@@ -661,7 +660,6 @@ func hashInts(xs []int) string {
 	}
 	return fmt.Sprintf("%016x", h.Sum64())
 }
-
 
 func indent(s string) string {
 	return "    " + strings.ReplaceAll(strings.TrimSpace(s), "\n", "\n    ")
